@@ -101,56 +101,4 @@ def decode (v : SerdeTag) : Tag :=
       | some c => if c ≠ 0 ∧ inI32 c = true then .completion (some (.exception c)) else .unknown
       | none => .unknown
 
-/-- what Rust's types guarantee about a `Tag` (NonZeroI64 / NonZeroI32 payloads) -/
-def Tag.wf : Tag → Prop
-  | .completion (some (.exitError c)) => c ≠ 0
-  | .completion (some (.exitStop c)) => c ≠ 0 ∧ inI32 c = true
-  | .completion (some (.exception c)) => c ≠ 0 ∧ inI32 c = true
-  | _ => True
-
-/-- **C16 round trip**: every well-formed tag survives encode-then-decode -/
-theorem decode_encode (t : Tag) (h : t.wf) : decode (encode t) = t := by
-  cases t with
-  | path p ft => rfl
-  | fek k => simp only [encode, decode]; rw [kind_roundtrip]
-  | source s => rfl
-  | keyboard k => rfl
-  | process pid => rfl
-  | signal s => rfl
-  | unknown => rfl
-  | completion e =>
-    cases e with
-    | none => rfl
-    | some e =>
-      cases e with
-      | success => rfl
-      | continued => rfl
-      | exitSignal s => rfl
-      | exitError c => simp only [Tag.wf] at h; simp [encode, decode, h]
-      | exitStop c => simp only [Tag.wf] at h; simp [encode, decode, h.1, h.2]
-      | exception c => simp only [Tag.wf] at h; simp [encode, decode, h.1, h.2]
-
-def Tag.kind : Tag → TagKind
-  | .path .. => .path | .fek _ => .fs | .source _ => .source | .keyboard _ => .keyboard | .process _ => .process
-  | .signal _ => .signal | .completion _ => .completion | .unknown => .none
-
-/-- **C16 totality**: whatever fields are present, missing or contradictory, the result is a tag of the
-    object's own kind or the explicit unknown tag — never another kind -/
-theorem decode_total (v : SerdeTag) : (decode v).kind = v.kind ∨ decode v = .unknown := by
-  unfold decode
-  cases hk : v.kind <;> simp only []
-  all_goals first
-    | (right; rfl)
-    | (repeat' split) <;> first | (right; rfl) | (left; rfl)
-
-/-- and what it decodes to is always well-formed -/
-theorem decode_wf (v : SerdeTag) : (decode v).wf := by
-  unfold decode
-  cases hk : v.kind <;> simp only []
-  all_goals first
-    | trivial
-    | (repeat' split) <;> first | trivial | (simp_all [Tag.wf])
-
-#print axioms decode_encode
-#print axioms decode_total
 end Wp
